@@ -259,8 +259,37 @@ class Flow:
         return fs(("unknown", type(e).__name__))
 
     # .................................................................. names
+    def _comprehension_binding(self, e, fn, env, depth, mod):
+        """A name bound by an enclosing comprehension: scoped to that comprehension only."""
+        n = self.prog.parent.get(e)
+        child = e
+        while n is not None and not isinstance(n, (ast.FunctionDef, ast.AsyncFunctionDef, ast.Module, ast.Lambda)):
+            if isinstance(n, (ast.ListComp, ast.SetComp, ast.GeneratorExp, ast.DictComp)):
+                for i, gen in enumerate(n.generators):
+                    names = [t for t in ast.walk(gen.target) if isinstance(t, ast.Name) and t.id == e.id]
+                    if not names:
+                        continue
+                    # the use must not be the iterable of this very generator (or an earlier one)
+                    if any(child is g2.iter or child in list(ast.walk(g2.iter)) for g2 in n.generators[: i + 1]):
+                        continue
+                    it = self.term(gen.iter, fn, env, depth + 1, mod)
+                    if isinstance(gen.target, ast.Name):
+                        return self._iter_elems(it, env, depth)
+                    idx = None
+                    if isinstance(gen.target, (ast.Tuple, ast.List)):
+                        for j, t in enumerate(gen.target.elts):
+                            if isinstance(t, ast.Name) and t.id == e.id:
+                                idx = j
+                    return fs(("elem", fs(("sub", it, fs(("const", idx))))))
+            child = n
+            n = self.prog.parent.get(n)
+        return None
+
     def _name(self, e, fn, env, depth, mod):
         name = e.id
+        r = self._comprehension_binding(e, fn, env, depth, mod)
+        if r is not None:
+            return r
         f = fn
         while f is not None:
             b = self.res.bindings(f)
@@ -382,7 +411,7 @@ class Flow:
             rest.add(t)
         if rest:
             out.add(("elem", frozenset(rest)))
-        return out
+        return frozenset(out)
 
     def _unpack(self, value, idx, n, f, env, depth):
         out = set()
